@@ -39,7 +39,9 @@ class Walk:
         for rec in self.res.hrecs:
             line = self.lines[rec["n"] - 1]
             t = line.split(" ")
-            if rec["op"] == "mkframe": vars_[t[1]] = parse_mkframe(t)
+            if rec["op"] in ("mkframe", "refill"): vars_[t[1]] = parse_mkframe(t)
+            elif rec["op"] == "cpframe":
+                if prev is not None and int(t[2]) < len(prev["frames"]): vars_[t[1]] = frames_of(prev)[int(t[2])]
             elif rec["op"] == "cmut":
                 v = vars_.get(t[1], {"pts": [], "subs": []})
                 if t[2] == "pt":
@@ -449,7 +451,8 @@ def c08(res):
     out = []
     last_dump = None; dirty = False
     for rec, t, prev, d, vars_ in Walk(res):
-        if rec["op"] == "cmut": dirty = True; continue
+        if rec["op"] in ("cmut", "refill"): dirty = True; continue
+        if rec["op"] == "cpframe": continue
         if rec["op"] == "dump" and d is not None and prev is not None and dirty:
             if d != prev:
                 out.append(("caller_mutation", {"op": rec["n"]}, "the stored data changed after the caller mutated its own frame object"))
@@ -460,7 +463,7 @@ def c08(res):
                 if j != fi and a != b:
                     out.append(("stored_frames_independent", {"op": rec["n"], "edited": fi, "changed": j}, "editing stored frame %d changed stored frame %d" % (fi, j))); break
             dirty = False
-        elif rec["op"] not in ("mkframe",): 
+        elif rec["op"] not in ("mkframe", "cpframe"): 
             if d is not None: dirty = False
     return out
 
